@@ -1,7 +1,7 @@
 ---- MODULE MC_Redaction ----
 EXTENDS Redaction, Json
 SetToSeq(S) == LET RECURSIVE F(_) F(s) == IF s = {} THEN <<>> ELSE LET x == CHOOSE y \in s : TRUE IN <<x>> \o F(s \ {x}) IN F(S)
-Terminal == level = Depth \/ verdict = "refused"
+Terminal == level = Depth \/ verdict # "valid"
 Emit == Terminal => PrintT(<<"VEC", ToJson([depth |-> level, verdict |-> verdict,
                                               requests |-> [j \in 1..level |-> SetToSeq({[m |-> t[1], kind |-> t[2]] : t \in requests[j]})],
                                               present |-> SetToSeq({[m |-> t[1], kind |-> t[2]] : t \in present})])>>)
